@@ -194,6 +194,9 @@ class Piece:
             raise LostAnchor("spec anchor ambiguous in extracted %s text: %r" % (self.region.src.rel, anchor))
         return i
 
+    def has(self, anchor):
+        return self.base.count(anchor) == 1
+
     def before(self, anchor, text):
         """Inserts spec text on its own line(s) before the line containing the anchor."""
         i = self._find(anchor)
